@@ -116,6 +116,12 @@ func genPayload(r *rand.Rand, id int, auth bool) (string, bool, bool) {
 
 func (RequestsScenario) GenCase(r *rand.Rand, prop string) interface{} {
 	c := &SvcCase{SvcName: "test", Gate: true, Epochs: 1, MidStop: []int{-1}}
+	if chance(r, 15) {
+		// Shutdown in the middle of the load: requests may be cut off, but
+		// none may be answered twice and none whose handler ran may go
+		// unanswered
+		c.MidStop = []int{20 + r.IntN(150)}
+	}
 	c.Workers = pick(r, 1, 2, 3, 4, 8, 32)
 	c.InCh = pick(r, 2, 4, 8, 1024, 1024)
 	c.QueryMs = 1000
@@ -233,6 +239,9 @@ func (RequestsScenario) Execute(sim *sched.Sim, ci interface{}, prop string, rac
 	if !race {
 		run.CheckOrder()
 		run.CheckLifecycle()
+		if c.MidStop[0] >= 0 {
+			run.E.checkRequestsCutOff()
+		}
 		// panics of harness tasks in this scenario belong to C04
 		for _, v := range run.H.Viol {
 			if v.Property == "C03" && v.Class == "panic" {
@@ -351,6 +360,48 @@ func (e *Engine) checkRequests() {
 			}
 		}
 	}
+}
+
+// checkRequestsCutOff is the C04 oracle for runs in which Shutdown cut the
+// load off: a request is never answered twice, and a request whose handler
+// ran always has its one response attempted (the publish may fail on the
+// closed connection).
+func (e *Engine) checkRequestsCutOff() {
+	byInbox := map[string]int{}
+	for _, ep := range e.Epochs {
+		for _, p := range ep.Conn.PubsSnapshot() {
+			if !simconn.IsPreResponse(p.Data) {
+				byInbox[p.Subject]++
+			}
+		}
+	}
+	for _, s := range e.Subs {
+		if s == nil || s.Kind != "req" || s.Invoke == 0 || s.Op.NoReply {
+			continue
+		}
+		e.H.Evals++
+		n := byInbox[s.Inbox]
+		if n > 1 {
+			e.H.Violate("C04", "multiple-responses", "cut-off", fmt.Sprintf("request %d %s got %d responses in a run cut off by Shutdown", s.Op.ID, s.Op.Subject, n))
+		}
+		if len(s.Starts) == 1 && len(s.Ends) == 0 && n == 0 {
+			// handler ran to its end (the exit record is in the history) but nothing was attempted
+		}
+		if len(s.Starts) == 1 && n == 0 && e.handlerFinished(s) {
+			e.H.Violate("C04", "no-response", "cut-off", fmt.Sprintf("request %d %s script=%v: its handler ran to the end but no response was attempted", s.Op.ID, s.Op.Subject, s.Op.Script))
+		}
+	}
+}
+
+// handlerFinished reports whether the callback of the submission has an exit
+// record.
+func (e *Engine) handlerFinished(s *Submission) bool {
+	for _, r := range e.H.Recs {
+		if r.Kind == "cb.exit" && r.Sub == s.Op.ID {
+			return true
+		}
+	}
+	return false
 }
 
 func init() {
